@@ -9,14 +9,14 @@ import (
 )
 
 type State struct {
-	pc    []string
-	vars  map[*types.Var]Term
-	heap  map[string]string
-	ghost map[string]Term
-	ret   []Term
-	site  string
+	pc      []string
+	vars    map[*types.Var]Term
+	heap    map[string]string
+	ghost   map[string]Term
+	ret     []Term
+	site    string
 	pending map[string][]string // heap -> allocation maps of calls that may have written FRESH objects' fields (lazy frame)
-	ndefer int // deferred calls registered when this exit/panic edge was taken
+	ndefer  int                 // deferred calls registered when this exit/panic edge was taken
 }
 
 func newState() *State {
@@ -217,7 +217,7 @@ func (f *FuncCtx) readGlobal(st *State, v *types.Var) Term {
 
 // define introduces a fresh constant equal to t when t is large, to keep terms small.
 func (f *FuncCtx) define(st *State, hint string, t Term) Term {
-	if len(t.S) < 80 || (t.Sort == SStr && len(t.S) < 4000) {
+	if len(t.S) < 80 || (t.Sort == SStr && (len(t.S) < 4000 || (f.con != nil && f.con.Opts["strite"] != "" && len(t.S) < 400000))) {
 		return t // strings stay inline: concatenations are normalised syntactically (right-nested)
 	}
 	c := f.fresh(hint, t.Sort)
@@ -300,6 +300,16 @@ func (f *FuncCtx) merge(states []*State) *State {
 			continue
 		}
 		t0 := ss[0].vars[k]
+		if t0.Sort == SStr && f.con != nil && f.con.Opts["strite"] != "" {
+			// strings built along several paths (strings.Builder): the merged value is the ite-chain over the join
+			// selectors, so later concatenations can be pushed into the branches (strCat)
+			v := ss[len(ss)-1].vars[k].S
+			for i := len(ss) - 2; i >= 0; i-- {
+				v = "(ite " + sels[i] + " " + ss[i].vars[k].S + " " + v + ")"
+			}
+			out.vars[k] = Term{S: v, Sort: t0.Sort, GoT: t0.GoT}
+			continue
+		}
 		c := f.fresh("m_"+k.Name(), t0.Sort)
 		for i, s := range ss {
 			rests[i] = append(rests[i], "(= "+c+" "+s.vars[k].S+")")
